@@ -66,7 +66,8 @@ use super::sparsity::SparsityStructure;
 ///     and returns a float. A zero crossing of this function is detected.
 ///     Event functions can have the following attributes:
 ///
-///     * terminal: bool, whether to terminate integration when this event occurs.
+///     * terminal: bool or int, whether to terminate integration when this event occurs
+///       (an integer n: after its n-th occurrence).
 ///     * direction: float, direction of a zero crossing. +1 for increasing,
 ///       -1 for decreasing, 0 for both directions.
 ///
@@ -272,6 +273,18 @@ fn parse_events<'py>(
                 if let Ok(is_term) = term.extract::<bool>() {
                     if is_term {
                         config.terminal();
+                    }
+                } else if let Ok(count) = term.extract::<f64>() {
+                    // SciPy also accepts a positive integer: terminate after that many occurrences
+                    // (`terminal = 1` is a terminal event, not an ignored attribute)
+                    if count != 0.0 {
+                        if count > 0.0 && count.fract() == 0.0 {
+                            config.terminal_count(count as usize);
+                        } else {
+                            return Err(pyo3::exceptions::PyValueError::new_err(
+                                "The `terminal` attribute of each event must be a boolean or positive integer.",
+                            ));
+                        }
                     }
                 }
             }
